@@ -186,6 +186,10 @@ class AsyncHTTP2Connection(AsyncConnectionInterface):
                 # it as a RemoteProtocolError.
                 if self._connection_terminated:  # pragma: nocover
                     raise RemoteProtocolError(self._connection_terminated)
+                # Similarly if the connection has already failed for another
+                # stream, the h2 state machine is closed.
+                if self._connection_error:  # pragma: nocover
+                    raise RemoteProtocolError(exc)
                 # If h2 raises a protocol error in some other state then we
                 # must somehow have made a protocol violation.
                 raise LocalProtocolError(exc)  # pragma: nocover
@@ -442,6 +446,10 @@ class AsyncHTTP2Connection(AsyncConnectionInterface):
             data = await self._network_stream.read(self.READ_NUM_BYTES, timeout)
             if data == b"":
                 raise RemoteProtocolError("Server disconnected")
+
+            # Data that the h2 state machine rejects is a protocol error of the peer.
+            with map_exceptions({h2.exceptions.ProtocolError: RemoteProtocolError}):
+                events: list[h2.events.Event] = self._h2_state.receive_data(data)
         except Exception as exc:
             # If we get a network error we should:
             #
@@ -454,10 +462,6 @@ class AsyncHTTP2Connection(AsyncConnectionInterface):
             self._read_exception = exc
             self._connection_error = True
             raise exc
-
-        # Data that the h2 state machine rejects is a protocol error of the peer.
-        with map_exceptions({h2.exceptions.ProtocolError: RemoteProtocolError}):
-            events: list[h2.events.Event] = self._h2_state.receive_data(data)
 
         return events
 
